@@ -282,7 +282,7 @@ func (f *Formatter) walkArgumentList(s ast.SelectionSet) map[string]string {
 			}
 
 			if a.Value.Kind == ast.Variable {
-				res[a.Value.Raw] = ad.Type.String()
+				res[a.Value.Raw] = variableType(a.Value, ad.Type, res)
 			}
 		}
 		if field.SelectionSet != nil {
@@ -341,6 +341,19 @@ func (f *Formatter) walkChildrenArgumentList(typeDef *ast.Definition, childs ast
 		}
 	}
 	return res
+}
+
+// variableType is the type a variable is declared with in a sub-request: the type of the position it
+// is used at, or, when it is used at several positions, the strictest of them (a variable used as Int!
+// and as Int has to be declared Int!)
+func variableType(v *ast.Value, position *ast.Type, seen map[string]string) string {
+	t := position.String()
+	if prev, ok := seen[v.Raw]; ok && prev != t {
+		if prev == t+"!" {
+			return prev
+		}
+	}
+	return t
 }
 
 // walkUntypedValue collects the variables of a value whose members have no declared types
